@@ -9,6 +9,9 @@ KINDS = ["argument", "authentication", "authorization", "communication", "timeou
 # error translator fail (unsupported types, malformed values)
 ACCEPTS = [None, "*/*", "application/json", "text/plain", "text/html", "application/xml",
            "text/plain;q=0.5, image/png", "image/png", "application/pdf, image/*", "foobar", "application/json;q=foo"]
+# log.level of the request-scoped logger (the pipeline code looks at it: trace makes conditionalSubjectHandler dump
+# the subject around the evaluation of the `if` condition)
+LOG_LEVELS = ["trace", "debug", "info", "warn", "disabled"]
 CEL_TYPES = ["authentication_error", "authorization_error", "communication_error", "internal_error",
              "precondition_error"]
 
@@ -122,6 +125,7 @@ def gen_case(rng):
     cfg = dict(rng.choice(CFGS))
     if rng.random() < 0.45:
         cfg["verbose"] = True
+    cfg["log"] = wchoice(rng, [("trace", 35), ("debug", 15), ("info", 20), ("warn", 10), ("disabled", 20)])
     return {
         "fam": "pipeline",
         "cfg": cfg,
@@ -182,9 +186,13 @@ def small_scope_cases():
             "backend": True,
         }
         k = len(cases)
-        # verbosity and Accept header cycle through all combinations (22 is coprime to the sizes of the other axes'
-        # strides, so every outcome class meets every combination somewhere in the enumeration)
-        cases.append({"fam": "pipeline", "cfg": {"verbose": True} if k % 2 else {}, "rule": doc, "default": None,
+        # verbosity, Accept header and log level cycle through all 110 combinations along the enumeration (the error
+        # pipeline index runs fastest with period 7, coprime to 2, 11 and 5, so every outcome class of a step meets
+        # every combination somewhere in the enumeration)
+        cfg = {"log": LOG_LEVELS[(k // 22) % len(LOG_LEVELS)]}
+        if k % 2:
+            cfg["verbose"] = True
+        cases.append({"fam": "pipeline", "cfg": cfg, "rule": doc, "default": None,
                       "hit": True, "upstream": 200, "style": k % 4, "accept": ACCEPTS[(k // 2) % len(ACCEPTS)]})
     return cases
 
